@@ -58,6 +58,8 @@ LAST_INFO: Dict[str, Any] = {}
 OBS: Dict[str, Any] = {}
 _installed = [False]
 CHAINER = "feature_chainer_parser_key"
+import threading as _threading
+LOCK = _threading.Lock()
 TYPES = ["INT64", "DOUBLE", "INT32"]
 
 
@@ -106,6 +108,8 @@ def make_universe(spec: Dict[str, Any], listener: Any = None) -> Any:
                     from mloda.core.abstract_plugins.components.data_types import DataType
                     n = feature_name.name if hasattr(feature_name, "name") else str(feature_name)
                     d = _f[n]
+                    if d.get("from_options"):
+                        return options.get_in_features()      # the Feature objects the caller put into the options
                     res = set()
                     for i in d["inputs"]:
                         t = d.get("input_type", {}).get(i)
@@ -128,15 +132,32 @@ def make_universe(spec: Dict[str, Any], listener: Any = None) -> Any:
                 cls.calculate_feature = classmethod(calculate_feature)  # type: ignore[attr-defined]
             return cls
 
-        def features(self) -> List[Any]:
+        def nested(self, i: Dict[str, Any]) -> Any:
+            """the caller's Feature object for an in_features entry: ONE object per entry and universe, handed to every call"""
             from mloda.user import Feature
+            key = json.dumps(i, sort_keys=True)
+            pool = self.__dict__.setdefault("pool", {})
+            if key not in pool:
+                pool[key] = Feature(i["name"], options=_opts(i.get("opt"), i.get("ctx"), None))
+            return pool[key]
+
+        def features(self) -> List[Any]:
+            from mloda.user import Feature, Options
             from mloda.core.abstract_plugins.components.data_types import DataType
             out = []
-            for r in self.spec["request"]:
+            for r in (getattr(self, "request_override", None) or self.spec["request"]):
                 if isinstance(r, str):
                     r = {"name": r}
                 dt = DataType[r["type"]] if r.get("type") else None
-                out.append(Feature(r["name"], options=_opts(r.get("opt"), r.get("ctx"), r.get("prop")), data_type=dt))
+                if r.get("inf") is not None:
+                    group = {k: _val(v) for k, v in (r.get("opt") or {}).items()}
+                    if r.get("lock"):
+                        group["conn"] = LOCK            # cannot be deep-copied; Options.__deepcopy__ hands the object on
+                    group["in_features"] = frozenset(self.nested(i) for i in r["inf"])
+                    opts = Options(group=group, context={k: _val(v) for k, v in (r.get("ctx") or {}).items()})
+                    out.append(Feature(r["name"], options=opts, data_type=dt))
+                else:
+                    out.append(Feature(r["name"], options=_opts(r.get("opt"), r.get("ctx"), r.get("prop")), data_type=dt))
             return out
 
     return UniverseO(spec, listener)
@@ -372,9 +393,35 @@ def gen_o_clash(rng: random.Random, cfw: str = "PyArrowTable") -> Dict[str, Any]
             "request": [req]}
 
 
+def gen_o_chain(rng: random.Random, cfw: str = "PyArrowTable") -> Dict[str, Any]:
+    """A feature whose inputs are Feature OBJECTS handed over in its options (in_features, as the chained built-in groups do):
+    the engine works on them (name, frameworks, child_options, merged group options).  The request is prepared AFTER another
+    call that was given the same caller objects with another option value (reuse_first); half of the requests carry a value that
+    cannot be deep-copied next to in_features.  mloda plans on copies, so the observed call must equal the model of ITS request."""
+    cols = {c: [1, 2, 3] for c in ["a", "b"]}
+    feats1 = {"x": _feat(["a"], rng), "y": _feat([rng.choice(["a", "b"])], rng)}
+    names = rng.sample(["x", "y"], 1)       # ONE object: with two, Feature.__hash__ (deep copy of the cyclic child_options) does not
+    inf = []                                # return within minutes on the unchanged tree (NOTES_plano.md)
+    for n in names:
+        i: Dict[str, Any] = {"name": n}
+        if rng.random() < 0.4:
+            i["opt"] = {"e": rng.choice([1, 4])}
+        inf.append(i)
+    v1, v2 = rng.sample([1, 2, 3], 2)
+    if rng.random() < 0.2:
+        v2 = v1
+    lock = rng.random() < 0.6
+    item = {"name": "g", "opt": {"k1": v2}, "inf": inf, "lock": lock}
+    first = {"name": "g", "opt": {"k1": v1}, "inf": inf, "lock": lock}
+    return {"groups": [{"name": "R0", "kind": "root", "cfw": cfw, "cols": cols},
+                       {"name": "D1", "kind": "derived", "cfw": cfw, "features": feats1},
+                       {"name": "D2", "kind": "derived", "cfw": cfw, "features": {"g": {"inputs": names, "c0": 0, "coefs": [1] * len(names), "from_options": True}}}],
+            "request": [item] + ([{"name": "x", "opt": {"k1": v2}}] if rng.random() < 0.3 else []), "reuse_first": [first]}
+
+
 def gen_any(rng: random.Random) -> Dict[str, Any]:
     r = rng.random()
-    return gen_o(rng) if r < 0.55 else (gen_o_typed(rng) if r < 0.8 else gen_o_clash(rng))
+    return gen_o(rng) if r < 0.5 else (gen_o_typed(rng) if r < 0.72 else (gen_o_clash(rng) if r < 0.9 else gen_o_chain(rng)))
 
 
 def _base(feats: Dict[str, Dict[str, Any]], cols: Sequence[str] = ("a",), cfw: str = "PyArrowTable") -> List[Dict[str, Any]]:
@@ -435,6 +482,13 @@ def witness_specs() -> Dict[str, Dict[str, Any]]:
     # propagated context key reaches the inputs (one level)
     w["propagate"] = {"groups": _base({"D1": {"f1": _feat(["a"])}, "D2": {"f2": _feat(["f1"])}}),
                       "request": [{"name": "f2", "opt": {"k1": 1}, "ctx": {"c1": 7, "c2": 8}, "prop": ["c1"]}, {"name": "f1", "opt": {"k1": 1}}]}
+    # input Feature OBJECTS handed over in the options, next to a value that cannot be deep-copied; the same caller objects were
+    # given to an earlier call with k1 = 1 (seed C07: the engine then works on the caller's objects and this call is rejected)
+    inf = [{"name": "x", "opt": {"e": 4}}]
+    w["in_features_reused"] = {"groups": _base({"D1": {"x": _feat(["a"]), "y": _feat(["a"])},
+                                                "D2": {"g": {"inputs": ["x"], "c0": 0, "coefs": [1], "from_options": True}}}),
+                               "request": [{"name": "g", "opt": {"k1": 2}, "inf": inf, "lock": True}],
+                               "reuse_first": [{"name": "g", "opt": {"k1": 1}, "inf": inf, "lock": True}]}
     return w
 
 
@@ -501,9 +555,27 @@ class Tables:
         return "None" if not t else f"(Some {cq_nat(self.dt.index(t))})"
 
 
+TOK_INF, TOK_LOCK = "(VOpq 7%nat true)", "(VOpq 9%nat true)"
+
+
+def pairs_term_o(items: Any) -> str:
+    """option dictionaries; a frozenset of Feature objects under in_features and the lock are opaque hashable objects"""
+    from harness.c15 import key_term, val_term
+    out = []
+    for k, v in items:
+        if v is LOCK or v == "__LOCK__":
+            t = TOK_LOCK
+        elif v == "__INF__" or (isinstance(v, frozenset) and v and all(type(x).__name__ == "Feature" for x in v)):
+            t = TOK_INF
+        else:
+            t = val_term(v)
+        out.append(f"({key_term(k)}, {t})")
+    return cq_list(out)
+
+
 def ostate_term(group: Any, ctx: Any, prop: Any) -> str:
-    from harness.c15 import pairs_term, keys_term
-    return f"{{| og := {pairs_term(group)}; oc := {pairs_term(ctx)}; opk := {keys_term(prop)} |}}"
+    from harness.c15 import keys_term
+    return f"{{| og := {pairs_term_o(group)}; oc := {pairs_term_o(ctx)}; opk := {keys_term(prop)} |}}"
 
 
 def options_term(o: Any) -> str:
@@ -527,6 +599,13 @@ def defs_term(spec: Dict[str, Any], t: Tables) -> str:
                 items[c] = (f"{{| od_name := {cq_str(c)}; od_grp := {gi}; od_cfw := {ci}; od_ins := [] |}}", [])
         else:
             for n, d in g["features"].items():
+                if d.get("from_options"):
+                    # input_features() returns the Feature objects of options[in_features]: the declaration is the request item's
+                    infs = [r["inf"] for r in spec["request"] if not isinstance(r, str) and r["name"] == n and r.get("inf") is not None]
+                    inf = infs[0] if infs else []
+                    ins = cq_list(f"{{| oi_name := {cq_str(i['name'])}; oi_opt := {spec_opt_term(i.get('opt'), i.get('ctx'), None)}; oi_ty := None |}}" for i in inf)
+                    items[n] = (f"{{| od_name := {cq_str(n)}; od_grp := {gi}; od_cfw := {ci}; od_ins := {ins} |}}", [i["name"] for i in inf])
+                    continue
                 ins = cq_list(f"{{| oi_name := {cq_str(i)}; oi_opt := {spec_opt_term(d.get('input_opt', {}).get(i), d.get('input_ctx', {}).get(i), d.get('input_prop', {}).get(i))}; "
                               f"oi_ty := {t.ty(d.get('input_type', {}).get(i))} |}}" for i in d["inputs"])
                 items[n] = (f"{{| od_name := {cq_str(n)}; od_grp := {gi}; od_cfw := {ci}; od_ins := {ins} |}}", list(d["inputs"]))
@@ -545,6 +624,13 @@ def req_term(spec: Dict[str, Any], t: Tables) -> str:
     for r in spec["request"]:
         if isinstance(r, str):
             r = {"name": r}
+        if r.get("inf") is not None:
+            group = dict(r.get("opt") or {})
+            if r.get("lock"):
+                group["conn"] = "__LOCK__"
+            group["in_features"] = "__INF__"
+            out.append(f"{{| rq_name := {cq_str(r['name'])}; rq_opt := {spec_opt_term(group, r.get('ctx'), None)}; rq_ty := {t.ty(r.get('type'))} |}}")
+            continue
         out.append(f"{{| rq_name := {cq_str(r['name'])}; rq_opt := {spec_opt_term(r.get('opt'), r.get('ctx'), r.get('prop'))}; rq_ty := {t.ty(r.get('type'))} |}}")
     return cq_list(out)
 
@@ -563,8 +649,15 @@ def _nl(xs: Any) -> str:
 
 def ident(f: Any) -> str:
     """uuid-free description of a Feature object (for signatures across preparations)"""
+    def rv(v: Any) -> str:
+        if v is LOCK:
+            return "<lock>"
+        if isinstance(v, frozenset) and v and all(type(x).__name__ == "Feature" for x in v):
+            return "<features " + ",".join(sorted(x.get_name() for x in v)) + ">"
+        return repr(v)
+
     def d(x: Any) -> str:
-        return json.dumps(sorted((str(k), repr(v)) for k, v in x.items()))
+        return json.dumps(sorted((str(k), rv(v)) for k, v in x.items()))
     return f"{f.get_name()}|{d(f.options.group)}|{d(f.options.context)}|{f.data_type.name if f.data_type else None}|" \
            f"{None if f.child_options is None else d(f.child_options.group)}"
 
@@ -583,6 +676,19 @@ def observe(spec: Dict[str, Any], keep_session: bool = False) -> Dict[str, Any]:
     t = Tables(spec)
     uni = make_universe(spec)
     head = f"oc_defs := {defs_term(spec, t)}; oc_req := {req_term(spec, t)}"
+    if spec.get("reuse_first"):
+        # ANOTHER call made first with the same caller objects (the nested in_features Feature objects are shared): by default
+        # mloda works on copies, so the call that is observed must behave as if it were the first
+        uni.request_override = spec["reuse_first"]
+        try:
+            uni.prepare()
+        except Exception:  # noqa: BLE001
+            pass
+        uni.request_override = None
+        LAST.pop("graph", None)
+        CAP.clear()
+        OBS["iord"] = []
+        OBS["ord0"] = []
     try:
         sess = None
         outcome = 0
@@ -637,7 +743,7 @@ def observe(spec: Dict[str, Any], keep_session: bool = False) -> Dict[str, Any]:
             sig.append((sorted(ident(f) for f in feats), sorted(ident(nodes[u].feature) for u in st.required_uuids)))
         for u in pos:
             f = nodes[u].feature
-            inst.add((f.get_name(), json.dumps(sorted((str(k), repr(v)) for k, v in f.options.group.items()))))
+            inst.add((f.get_name(), ident(f).split("|")[1]))
         term = (f"{{| {head}; oc_iord := {cq_list('(' + cq_nat(k) + ', ' + cq_list(cq_str(n) for n in names) + ')' for k, names in iord)}; "
                 f"oc_x := {cq_list(xs)}; oc_ord0 := {cq_list(_nl(l) for l in ord0)}; oc_queue := {_nl(queue)}; "
                 f"oc_p2c := {cq_list('(' + cq_nat(c) + ', ' + _nl(ps) + ')' for c, ps in p2c)}; "
@@ -813,17 +919,25 @@ def check_plans(specs: List[Dict[str, Any]], rep_prefix: str, hash_seeds: Sequen
     if terms:
         def failing(name: str, checker: str, ts: List[str] = terms) -> List[int]:
             return vlib.run_cases(rep_prefix, name, REQ, checker, ts, case_type="ocase", shard=25)[0]
-        bad, ci = vlib.run_cases(rep_prefix, "planO_all", REQ, "chk_planner_O", terms, case_type="ocase", shard=25)
+        bad_any, ci = vlib.run_cases(rep_prefix, "planO_all", REQ, "chk_everything_O", terms, case_type="ocase", shard=25)
         info["coq"] = ci
-        bad_ro = failing("planO_reqout", "chk_request_outcome_O")
-        bad_rp = failing("planO_reqplan", "chk_request_plan_O")
-        bad_cov = failing("planO_cov", "model_req_covers_O")
-        bad_st = failing("planO_struct", "model_struct_O")
-        bad_iff = failing("planO_iff", "model_accept_iff_wf_O")
-        bad_hyp = failing("planO_hyps", "model_hyps_O")
         amb = set(range(len(terms))) - set(failing("planO_amb", "model_amb_O"))
         plain = set(range(len(terms))) - set(failing("planO_plain", "model_plain_O"))
         amb_specs = {origin[k][0] for k in amb}
+        bad, bad_ro, bad_rp, bad_cov, bad_st, bad_iff, bad_hyp = [], [], [], [], [], [], []
+        if bad_any:
+            # diagnosis, on the failing cases only
+            sub_any = [terms[k] for k in bad_any]
+
+            def failing_of(name: str, checker: str) -> List[int]:
+                return [bad_any[j] for j in failing(name, checker, sub_any)]
+            bad = failing_of("planO_planner", "chk_planner_O")
+            bad_ro = failing_of("planO_reqout", "chk_request_outcome_O")
+            bad_rp = failing_of("planO_reqplan", "chk_request_plan_O")
+            bad_cov = failing_of("planO_cov", "model_req_covers_O")
+            bad_st = failing_of("planO_struct", "model_struct_O")
+            bad_iff = failing_of("planO_iff", "model_accept_iff_wf_O")
+            bad_hyp = failing_of("planO_hyps", "model_hyps_O")
         stage_of: Dict[int, str] = {}
         if bad:
             sub = [terms[k] for k in bad]
@@ -925,6 +1039,41 @@ def check_plans(specs: List[Dict[str, Any]], rep_prefix: str, hash_seeds: Sequen
     LAST_INFO.clear()
     LAST_INFO.update(info)
     return out
+
+
+def judge(spec: Dict[str, Any], n: int = 6, timeout: float = 15.0) -> Optional[Dict[str, Any]]:
+    """Search for a failure of C04 / C02 themselves on one O-fragment request: different outcomes or plans between preparations
+    (outside the two recorded domains this is decided by the caller), an accepted plan that does not return, returned values that
+    differ from the reference evaluation of the option instances."""
+    obs = [observe(spec, keep_session=(j == 0)) for j in range(n)]
+    try:
+        sigs = sorted({o.get("sig", o.get("error")) for o in obs}, key=str)
+        if len(sigs) > 1:
+            return {"kind": "det", "signatures": [str(x)[:300] for x in sigs[:3]]}
+        if spec.get("reuse_first"):
+            # the same request from FRESH objects, no earlier call: must plan alike (the caller's objects are left alone)
+            fresh = observe({k: v for k, v in spec.items() if k != "reuse_first"})
+            if fresh.get("sig", fresh.get("error")) != sigs[0]:
+                return {"kind": "reuse", "after_an_earlier_call_with_the_same_objects": str(sigs[0])[:200],
+                        "with_fresh_objects": str(fresh.get("sig", fresh.get("error")))[:200]}
+        o = obs[0]
+        if "error" not in o and o.get("outcome") == 0 and "session" in o:
+            rv = run_values(spec, o, timeout=timeout)
+            if rv["status"] == "ok":
+                from harness.c02 import REQ as REQ2, EXTRA, cq_col
+                obs_t = cq_list(f"({_nl(rv['want'][c])}, {cq_list(cq_col(col) for col in rv['got'][c])})" for c in sorted(rv["want"]))
+                badv, _ = vlib.run_cases("PlannerO", "judge_values", REQ2, "chk_values_O", [f"({rv['head']}, {obs_t})"],
+                                         extra_defs=EXTRA_VALUES_PRE + EXTRA + EXTRA_VALUES,
+                                         case_type="(nat * env * list fdef) * list (list nat * list column)")
+                if badv:
+                    return {"kind": "values", "returned": {c: v for c, v in rv["got"].items()}}
+            elif rv["status"] not in ("skipped",):
+                return {"kind": "run", "what": rv["what"][:300]}
+        return None
+    finally:
+        for o in obs:
+            if "uni" in o:
+                o["uni"].dispose()
 
 
 def main(argv: List[str]) -> int:
